@@ -56,11 +56,12 @@ def build(thorough):
             add('insert_context_structure', f'N={n}' + (f',E={e}' if e else ''), dict(VH_N=n, VH_EPIN=e))
     # insert_workflow: (NA, NB, PM, A-edge pins)
     if thorough:
-        iw = [(a, b, pm, ap) for a in (1, 2, 3) for b in (1, 2, 3) for pm in (0, 1, 2)
+        iw = [(a, b, pm, ap) for a in (1, 2, 3) for b in (1, 2, 3) for pm in (0, 1, 2, 3)
               for ap in (bits(3) if (a == 3 and pm == 2 and b > 1) else bits(1) if (a == 3 and pm == 1 and b == 3)
                          else [''])]
     else:
-        iw = [(1, 1, 0, ''), (2, 2, 0, ''), (3, 3, 0, ''), (2, 3, 1, ''), (3, 3, 1, '0'), (3, 3, 1, '1'),
+        iw = [(1, 1, 0, ''), (2, 2, 0, ''), (3, 3, 0, ''), (2, 3, 1, ''), (3, 3, 1, '0'), (3, 3, 1, '1'), (2, 2, 3, ''),
+              (3, 3, 3, '0'), (3, 3, 3, '1'),
               (2, 3, 2, ''), (3, 2, 2, '000'), (3, 3, 2, '000'), (3, 3, 2, '110')]
     for a, b, pm, ap in iw:
         add('insert_workflow', f'NA={a},NB={b},PM={pm}' + (f',A={ap}' if ap else ''),
